@@ -38,13 +38,13 @@ func NewForwardedModifier() martian.RequestModifier {
 				return nil
 			}
 
-			if v := req.Header.Get("X-Forwarded-Proto"); v == "" {
+			if _, ok := req.Header["X-Forwarded-Proto"]; !ok {
 				req.Header.Set("X-Forwarded-Proto", req.URL.Scheme)
 			}
-			if v := req.Header.Get("X-Forwarded-Host"); v == "" {
+			if _, ok := req.Header["X-Forwarded-Host"]; !ok {
 				req.Header.Set("X-Forwarded-Host", req.Host)
 			}
-			if v := req.Header.Get("X-Forwarded-Url"); v == "" {
+			if _, ok := req.Header["X-Forwarded-Url"]; !ok {
 				req.Header.Set("X-Forwarded-Url", req.URL.String())
 			}
 
